@@ -1,9 +1,9 @@
 /-
   C09 — Object ids in a scenario stay unique and the id pool stays exact.
-  Property theorems only (definitions `allIds`, `Inv`, `WfOp`, `WfRun`, `objIds`, `Contains`, `genOuts` and the helper
+  Property theorems only (definitions `allIds`, `Inv`, `objIds`, `Contains`, `genOuts` and the helper
   lemmas live in CRProofs/IdPool.lean).  Model: CRModel/IdPool.lean — `step : St → Op → St × Out` mirrors
   Scenario.add_objects / remove_* / replace_lanelet_network / generate_object_id of scenario/scenario.py
-  (after the three `fix:` commits recorded in known-findings.txt).
+  (after the four `fix:` commits recorded in known-findings.txt).
 
   Reading of the property sentence:
     * "no two contained objects share an id" + "the id pool stays exact"      → `Inv`  (C09_inv_*)
@@ -14,10 +14,9 @@
                                                                                → C09_gen_fresh, C09_gen_never_repeats
     * "the ids of removed objects become free again ... can be added again"    → C09_removed_can_be_added_again and
                                                                                  C09_remove_*_then_add (every form)
-  Admissible histories (`WfRun`): removal operations are applied to objects of the scenario — the argument names a
-  contained object of that kind, or an id that is not in use at all (then the code raises KeyError / warns and the
-  theorems still hold).  Handing e.g. `remove_traffic_sign` a foreign sign whose id belongs to a contained *lanelet*
-  is not "removing an object" and is outside the property; the code does release the lanelet's id then.
+  The theorems hold for ALL states satisfying the invariant and ALL finite histories of operations — there is no
+  admissibility side condition: removal operations handed an object that is not contained raise KeyError (or warn,
+  remove_obstacle) before anything changes, see the fourth `fix:` commit.
 -/
 import CRProofs.IdPool
 namespace CR.IdPool
@@ -33,33 +32,34 @@ theorem C09_inv_readable (s : St) :
 
 theorem C09_inv_init : Inv init := init_inv
 
-/-- every admissible operation — every object kind, single and list forms, failing or not — keeps the invariant -/
-theorem C09_inv_step (s : St) (op : Op) (h : Inv s) (w : WfOp s op) : Inv (step s op).1 :=
-  step_inv s op h w
+/-- every operation — every object kind, single and list forms, contained argument or not, failing or not — keeps
+    the invariant -/
+theorem C09_inv_step (s : St) (op : Op) (h : Inv s) : Inv (step s op).1 :=
+  step_inv s op h
 
-/-- every finite admissible history keeps the invariant (induction over the history) -/
-theorem C09_inv_run (ops : List Op) (s : St) (h : Inv s) (w : WfRun s ops) : Inv (run s ops).1 :=
-  run_inv ops s h w
+/-- every finite history keeps the invariant (induction over the history) -/
+theorem C09_inv_run (ops : List Op) (s : St) (h : Inv s) : Inv (run s ops).1 :=
+  run_inv ops s h
 
-/-- from the empty scenario: after any admissible history no two contained objects share an id and the id pool is exact -/
-theorem C09_unique_and_exact (ops : List Op) (w : WfRun init ops) :
+/-- from the empty scenario: after any history no two contained objects share an id and the id pool is exact -/
+theorem C09_unique_and_exact (ops : List Op) :
     (allIds (run init ops).1).Nodup ∧ ∀ x, x ∈ (run init ops).1.idSet ↔ x ∈ allIds (run init ops).1 :=
-  ((inv_iff _).mp (run_inv ops init init_inv w)).1
+  ((inv_iff _).mp (run_inv ops init init_inv)).1
 
-/-- operations that are not removals are admissible in every state -/
-theorem C09_wf_nonremoval (s : St) :
-    (∀ o refs, WfOp s (.add o refs)) ∧ (∀ os refs, WfOp s (.addList os refs)) ∧ (∀ k, WfOp s (.removeObstacle k)) ∧
-    (∀ ks, WfOp s (.removeObstacles ks)) ∧ (∀ n, WfOp s (.replaceNet n)) ∧ WfOp s .genId := by
-  refine ⟨fun _ _ => trivial, fun _ _ => trivial, fun _ => trivial, fun _ => trivial, fun _ => trivial, trivial⟩
-
-/-- removing contained objects is admissible (every form) -/
-theorem C09_wf_contained (s : St) :
-    (∀ k, k ∈ s.net.signs → WfOp s (.removeSign k)) ∧ (∀ ks, (∀ k ∈ ks, k ∈ s.net.signs) → WfOp s (.removeSigns ks)) ∧
-    (∀ k, k ∈ s.net.lights → WfOp s (.removeLight k)) ∧ (∀ ks, (∀ k ∈ ks, k ∈ s.net.lights) → WfOp s (.removeLights ks)) ∧
-    (∀ i, i ∈ s.net.inters → WfOp s (.removeInter i)) ∧ (∀ is, (∀ i ∈ is, i ∈ s.net.inters) → WfOp s (.removeInters is)) ∧
-    (∀ ls refd, (∀ l ∈ ls, l.id ∈ lids s.net) → WfOp s (.removeLanelets ls refd)) :=
-  ⟨fun _ h => .inl h, fun _ h k hk => .inl (h k hk), fun _ h => .inl h, fun _ h k hk => .inl (h k hk),
-   fun _ h => .inl h, fun _ h i hi => .inl (h i hi), fun _ _ h l hl => .inl (h l hl)⟩
+/-- a removal operation handed an object that is not contained raises KeyError and changes nothing -/
+theorem C09_remove_foreign_rejects (s : St) :
+    (∀ k, k ∉ s.net.signs → step s (.removeSign k) = (s, .err .key)) ∧
+    (∀ k, k ∉ s.net.lights → step s (.removeLight k) = (s, .err .key)) ∧
+    (∀ i, (∀ j ∈ s.net.inters, j.id ≠ i.id) → step s (.removeInter i) = (s, .err .key)) ∧
+    (∀ l, l.id ∉ lids s.net → step s (.removeLanelets [l] false) = (s, .err .key)) := by
+  refine ⟨fun k hk => ?_, fun k hk => ?_, fun i hi => ?_, fun l hl => ?_⟩
+  · simp [step, removeSign, hk]
+  · simp [step, removeLight, hk]
+  · have : s.net.inters.find? (fun j => j.id = i.id) = none :=
+      List.find?_eq_none.mpr (fun j hj => by simpa using hi j hj)
+    simp [step, removeInter, this]
+  · have hl' : l.id ∉ s.net.lanelets.map (·.id) := hl
+    simp [step, removeLanelets, andThen, forEach, dropLanelet, hl']
 
 /-! ## 2. adding -/
 
@@ -105,13 +105,13 @@ theorem C09_gen_never_repeats (ops : List Op) (s : St) :
 
 /-! ## 4. removed objects can be added again -/
 
-/-- General form: after ANY admissible operation (a removal of any form, a removal as a consequence of removing a
+/-- General form: after ANY operation (a removal of any form, a removal as a consequence of removing a
     lanelet, a replacement of the network, ...) every object whose ids are used by no object that is contained now
     can be added — in particular every object that has just left the scenario, unless a new member took its id. -/
-theorem C09_removed_can_be_added_again (s : St) (op : Op) (h : Inv s) (w : WfOp s op) (o : Obj) (refs : List Nat)
+theorem C09_removed_can_be_added_again (s : St) (op : Op) (h : Inv s) (o : Obj) (refs : List Nat)
     (hv : o ≠ .invalid) (hn : (objIds o).Nodup) (hf : ∀ x ∈ objIds o, x ∉ allIds (step s op).1) :
     (step (step s op).1 (.add o refs)).2 = .ok :=
-  (C09_add_free_accepts _ o refs (step_inv s op h w) hv hn hf).1
+  (C09_add_free_accepts _ o refs (step_inv s op h) hv hn hf).1
 
 /-- and the removals do release the ids; form by form: -/
 theorem C09_remove_obstacle_then_add (s : St) (k : Nat) (h : Inv s) (hk : k ∈ obstIds s) (r : Role) (refs : List Nat) :
@@ -121,56 +121,58 @@ theorem C09_remove_obstacle_then_add (s : St) (k : Nat) (h : Inv s) (hk : k ∈ 
     (by simpa [objIds, step] using h2)⟩
 
 theorem C09_remove_sign_then_add (s : St) (k : Nat) (h : Inv s) (hk : k ∈ s.net.signs) (refs : List Nat) :
-    (step s (.removeSign k)).2 = .ok ∧ (step (step s (.removeSign k)).1 (.add (.sign k) refs)).2 = .ok :=
-  ⟨removeSign_ok s k h hk, add_ok_of_free _ _ refs (removeSign_good s k h (.inl hk)).1 (by simp) (by simp [objIds])
-    (by simp [objIds, step, removeSign_mem])⟩
+    (step s (.removeSign k)).2 = .ok ∧ (step (step s (.removeSign k)).1 (.add (.sign k) refs)).2 = .ok := by
+  have hok := removeSign_ok s k h hk
+  exact ⟨hok, add_ok_of_free _ _ refs (removeSign_good s k h).1 (by simp) (by simp [objIds])
+    (by simpa [objIds, step] using removeSign_frees s _ k (Prod.ext rfl hok))⟩
 
 theorem C09_remove_light_then_add (s : St) (k : Nat) (h : Inv s) (hk : k ∈ s.net.lights) (refs : List Nat) :
-    (step s (.removeLight k)).2 = .ok ∧ (step (step s (.removeLight k)).1 (.add (.light k) refs)).2 = .ok :=
-  ⟨removeLight_ok s k h hk, add_ok_of_free _ _ refs (removeLight_good s k h (.inl hk)).1 (by simp) (by simp [objIds])
-    (by simp [objIds, step, removeLight_mem])⟩
+    (step s (.removeLight k)).2 = .ok ∧ (step (step s (.removeLight k)).1 (.add (.light k) refs)).2 = .ok := by
+  have hok := removeLight_ok s k h hk
+  exact ⟨hok, add_ok_of_free _ _ refs (removeLight_good s k h).1 (by simp) (by simp [objIds])
+    (by simpa [objIds, step] using removeLight_frees s _ k (Prod.ext rfl hok))⟩
 
 /-- single form of remove_intersection: id and incoming ids are free again -/
 theorem C09_remove_intersection_then_add (s : St) (i : Inter) (h : Inv s) (hi : i ∈ s.net.inters) (refs : List Nat) :
     (step s (.removeInter i)).2 = .ok ∧ (step (step s (.removeInter i)).1 (.add (.inter i) refs)).2 = .ok := by
   have hok := removeInter_ok s i h hi
-  refine ⟨hok, add_ok_of_free _ _ refs (removeInter_good s i h (.inl hi)).1 (by simp) (h.interIds_nodup hi) ?_⟩
-  exact removeInter_frees s _ i (Prod.ext rfl hok)
+  refine ⟨hok, add_ok_of_free _ _ refs (removeInter_good s i h).1 (by simp) (h.interIds_nodup hi) ?_⟩
+  exact removeInter_frees_contained s _ i h hi (Prod.ext rfl hok)
 
 /-- list forms: when the call returns, every listed object can be added again -/
-theorem C09_remove_sign_list_then_add (s s' : St) (ks : List Nat) (h : Inv s) (w : WfOp s (.removeSigns ks))
+theorem C09_remove_sign_list_then_add (s s' : St) (ks : List Nat) (h : Inv s)
     (hr : step s (.removeSigns ks) = (s', .ok)) (k : Nat) (hk : k ∈ ks) (refs : List Nat) :
     (step s' (.add (.sign k) refs)).2 = .ok :=
-  add_ok_of_free _ _ refs (fst_of_eq hr ▸ (removeSigns_good s ks h w).1) (by simp) (by simp [objIds])
+  add_ok_of_free _ _ refs (fst_of_eq hr ▸ (removeSigns_good s ks h).1) (by simp) (by simp [objIds])
     (by simpa [objIds] using removeSigns_frees s s' ks hr k hk)
 
-theorem C09_remove_light_list_then_add (s s' : St) (ks : List Nat) (h : Inv s) (w : WfOp s (.removeLights ks))
+theorem C09_remove_light_list_then_add (s s' : St) (ks : List Nat) (h : Inv s)
     (hr : step s (.removeLights ks) = (s', .ok)) (k : Nat) (hk : k ∈ ks) (refs : List Nat) :
     (step s' (.add (.light k) refs)).2 = .ok :=
-  add_ok_of_free _ _ refs (fst_of_eq hr ▸ (removeLights_good s ks h w).1) (by simp) (by simp [objIds])
+  add_ok_of_free _ _ refs (fst_of_eq hr ▸ (removeLights_good s ks h).1) (by simp) (by simp [objIds])
     (by simpa [objIds] using removeLights_frees s s' ks hr k hk)
 
 /-- list form of remove_intersection (the form that leaked the incoming ids before the fix) -/
 theorem C09_remove_intersection_list_then_add (s s' : St) (is : List Inter) (h : Inv s)
     (hc : ∀ i ∈ is, i ∈ s.net.inters) (hr : step s (.removeInters is) = (s', .ok)) (i : Inter) (hi : i ∈ is)
     (refs : List Nat) : (step s' (.add (.inter i) refs)).2 = .ok :=
-  add_ok_of_free _ _ refs (fst_of_eq hr ▸ (removeInters_good s is h (fun j hj => .inl (hc j hj))).1) (by simp)
-    (h.interIds_nodup (hc i hi)) (removeInters_frees s s' is hr i hi)
+  add_ok_of_free _ _ refs (fst_of_eq hr ▸ (removeInters_good s is h).1) (by simp)
+    (h.interIds_nodup (hc i hi)) (removeInters_frees is s s' h hc hr i hi)
 
 theorem C09_remove_obstacle_list_then_add (s : St) (ks : List Nat) (h : Inv s) (k : Nat) (r : Role) (refs : List Nat)
     (hfree : k ∉ allIds (step s (.removeObstacles ks)).1) :
     (step (step s (.removeObstacles ks)).1 (.add (.obstacle r k) refs)).2 = .ok :=
-  C09_removed_can_be_added_again s (.removeObstacles ks) h trivial _ refs (by simp) (by simp [objIds])
+  C09_removed_can_be_added_again s (.removeObstacles ks) h _ refs (by simp) (by simp [objIds])
     (by simpa [objIds] using hfree)
 
 /-- remove_lanelet (single = one-element list, and list form): the lanelets, and the traffic signs and lights that
     went with them as "hanging members", can be added again -/
 theorem C09_remove_lanelet_then_add (s s' : St) (ls : List Lanelet) (refd : Bool) (h : Inv s)
-    (w : WfOp s (.removeLanelets ls refd)) (hr : step s (.removeLanelets ls refd) = (s', .ok)) (refs : List Nat) :
+    (hr : step s (.removeLanelets ls refd) = (s', .ok)) (refs : List Nat) :
     (∀ l ∈ ls, (step s' (.add (.lanelet l) refs)).2 = .ok) ∧
     (refd = true → (∀ k ∈ hangingSigns s ls, (step s' (.add (.sign k) refs)).2 = .ok) ∧
                    (∀ k ∈ hangingLights s ls, (step s' (.add (.light k) refs)).2 = .ok)) := by
-  have hi : Inv s' := fst_of_eq hr ▸ (removeLanelets_good s ls refd h w).1
+  have hi : Inv s' := fst_of_eq hr ▸ (removeLanelets_good s ls refd h).1
   obtain ⟨f1, f2⟩ := removeLanelets_frees s s' ls refd hr
   refine ⟨fun l hl => add_ok_of_free _ _ refs hi (by simp) (by simp [objIds]) (by simpa [objIds] using f1 l hl),
     fun hrf => ⟨fun k hk => ?_, fun k hk => ?_⟩⟩
@@ -198,19 +200,19 @@ theorem C09_add_network_releases_old (s : St) (n : Net) (hok : (step s (.add (.n
 
 /-! ## non-vacuity and the three repaired defects, on concrete histories -/
 
-/-- an admissible history that uses every kind of operation; its outcomes -/
+/-- a history that uses every kind of operation (also removals of objects that are not contained); its outcomes -/
 def demoOps : List Op :=
   [.add (.lanelet ⟨1, [5], [7]⟩) [], .add (.lanelet ⟨2, [5, 6], []⟩) [], .add (.sign 5) [], .add (.sign 6) [2],
    .add (.light 7) [1], .add (.inter ⟨10, [11, 12]⟩) [], .add (.obstacle .stat 20) [], .add (.obstacle .phan 11) [],
    .genId, .removeInters [⟨10, [11, 12]⟩], .add (.inter ⟨10, [11, 12]⟩) [], .removeLanelets [⟨2, [5, 6], []⟩] true,
    .add (.sign 6) [], .genId, .addList [.obstacle .dyn 30, .obstacle .env 20, .obstacle .env 31] [],
-   .replaceNet { lanelets := [⟨1, [], []⟩], signs := [40] }, .add (.sign 5) [], .removeSign 99, .removeObstacles [20, 77]]
+   .replaceNet { lanelets := [⟨1, [], []⟩], signs := [40] }, .add (.sign 5) [], .removeSign 99, .removeObstacles [20, 77],
+   .removeLight 1, .removeInter ⟨10, [1]⟩, .add (.inter ⟨10, [11, 12]⟩) []]
 
-example : WfRun init demoOps := by decide
 example : (run init demoOps).2 =
     [.ok, .ok, .ok, .ok, .ok, .ok, .ok, .err .value, .id 21, .ok, .ok, .ok, .ok, .id 22, .err .value, .ok, .ok,
-     .err .key, .ok] := by decide
-example : Inv (run init demoOps).1 := C09_inv_run demoOps init C09_inv_init (by decide)
+     .err .key, .ok, .err .key, .err .key, .ok] := by decide
+example : Inv (run init demoOps).1 := C09_inv_run demoOps init C09_inv_init
 
 /-- defect 1 (repaired): list-form remove_intersection, then adding the intersection again -/
 example : (run init [.add (.inter ⟨51, [52, 53]⟩) [], .removeInters [⟨51, [52, 53]⟩], .add (.inter ⟨51, [52, 53]⟩) []]).2
